@@ -361,15 +361,14 @@ End Plug.
 
 (** * wac targets *)
 
-(** What [get_wit_world] looks at in the decoded WIT package: each export of the top-level world
-    is either a world type whose first export is a component type [w] (the well-formed shape),
-    a world type of another shape, or something else (an interface). *)
+(** What [get_wit_world] looks at in the decoded WIT package: an export of the top-level world is
+    a world definition if it is a component type whose first export is a component type [w];
+    anything else (in particular an interface, which the encoding wraps in a component type whose
+    first export is an instance) is not. *)
 Inductive wit_export (W : Type) :=
 | EWorld (w : W)
-| EWorldMalformed
 | EOther.
 Arguments EWorld {W} w.
-Arguments EWorldMalformed {W}.
 Arguments EOther {W}.
 
 Fixpoint assoc_str {A} (k : str) (l : list (str * A)) : option A :=
@@ -379,7 +378,7 @@ Fixpoint assoc_str {A} (k : str) (l : list (str * A)) : option A :=
   end.
 
 Definition is_world_export {W} (e : wit_export W) : bool :=
-  match e with EOther => false | _ => true end.
+  match e with EOther => false | EWorld _ => true end.
 
 (** Which exports the "only one world" default looks at: every export of the encoded package
     ([targets_default_counts_all_exports], the shape found in targets.rs by the translator) or
